@@ -433,7 +433,7 @@ def frame_events(rnd, quick):
     from .. import tables as T
     out = []
     texts = []
-    for v in (["2.3", "2.5", "2.7"] if quick else T.versions()):
+    for v in (["2.3", "2.5", "2.7", "2.8.1", "2.8.2"] if quick else T.versions()):
         m = Message("ADT_A01", version=v)
         m.msh.msh_9 = "ADT^A01^ADT_A01" if v > "2.3" else "ADT^A01"
         m.msh.msh_10 = "X1"
